@@ -11,15 +11,15 @@ import (
 // The function menu (DESIGN.md §4 "Configs").  Every function records its call, obeys the
 // fault plan of the operation in progress, and yields to the scheduler on entry.
 const (
-	fID = iota // filter: identity
-	fTag       // filter: tagged wrapper of the argument
-	fFF        // filter: identity (conventionally the one made to fail)
-	fYF        // filter: yields and re-enters the library, then identity
-	fCnt       // aggregate: count
-	fFirst     // aggregate: first element
-	fAll       // aggregate: copy of the list
-	fAF        // aggregate: copy of the list (conventionally the one made to fail)
-	fYA        // aggregate: yields and re-enters the library, then count
+	fID    = iota // filter: identity
+	fTag          // filter: tagged wrapper of the argument
+	fFF           // filter: identity (conventionally the one made to fail)
+	fYF           // filter: yields and re-enters the library, then identity
+	fCnt          // aggregate: count
+	fFirst        // aggregate: first element
+	fAll          // aggregate: copy of the list
+	fAF           // aggregate: copy of the list (conventionally the one made to fail)
+	fYA           // aggregate: yields and re-enters the library, then count
 	nFuncs
 )
 
